@@ -26,6 +26,8 @@ func checkC06(c *Ctx, r *Report) {
 	c06GenerateEscape(c, r)
 	c06LexerRecordEnd(c, r)
 	c06TTLDirectiveFlag(c, r, "C06.R3.ttl-directive-flag")
+	ttlNoWrap(c, r, "C06.R3.ttl-no-wrap")
+	endingConsumesLine(c, r, "C06.R6.ending-consumes-line")
 }
 
 // mustPassExit is mustPass restricted to the exits accepted by isExit.
